@@ -113,7 +113,7 @@ def selftest(C):
     open(short, "w").write("\n".join(lines[:400]) + "\n")
     rf = C.validate_shard(short, os.path.join(C.WORK, "md", "self4"))
     rc, out, gen, dist = C.run_tlc("Trace.tla", "Trace.cfg", os.path.join(C.WORK, "md", "self5"), env={"TRACE": short}, fast=False, timeout=1800)
-    pm = [int(m.group(1)) for m in (C.MISM_RE.match(x.strip()) for x in out.splitlines()) if m]
+    pm = [int(m.group(1)) for m in (C.MISM_RE.match(x) for x in C.tlc_tuples(out)) if m]
     if dist != 401 or pm != [i for i, _ in rf["mismatches"]]:
         C.log("selftest FAILED: pure-TLA+ run disagrees with override run", dist, pm, rf["mismatches"])
         ok = False
